@@ -43,16 +43,31 @@ func (i *IRCServer) cmdServerQuit(s *Session, reply *Replyctx, msg *irc.Message)
 
 	// We got a prefix, so only a single session quits (e.g. nickname
 	// enforcer).
-	for id, session := range i.sessions {
-		if id.Id != s.Id.Id || id.Reply == 0 || NickToLower(session.Nick) != NickToLower(msg.Prefix.Name) {
-			continue
-		}
+	if session := i.pseudoClientLocked(s, msg.Prefix.Name); session != nil {
 		i.sendCommonChannels(session, reply, &irc.Message{
 			Prefix:  &session.ircPrefix,
 			Command: irc.QUIT,
 			Params:  []string{msg.Trailing()},
 		})
 		i.deleteSessionLocked(session, reply.msgid)
-		return
 	}
+}
+
+// pseudoClientLocked returns the session which the services link |s|
+// introduced under |nick|, or nil. Several sessions of a link can end up with
+// the same nickname (SVSNICK does not check whether the new nickname is in
+// use). Map iteration order is random, but all nodes must generate identical
+// output, so the session that was introduced first (smallest .Reply) is
+// chosen.
+func (i *IRCServer) pseudoClientLocked(s *Session, nick string) *Session {
+	var found *Session
+	for id, session := range i.sessions {
+		if id.Id != s.Id.Id || id.Reply == 0 || NickToLower(session.Nick) != NickToLower(nick) {
+			continue
+		}
+		if found == nil || id.Reply < found.Id.Reply {
+			found = session
+		}
+	}
+	return found
 }
